@@ -111,6 +111,11 @@ func init() {
 				js = append(js, &Job{Pkg: pkgOutput, Func: "VerifC19Raw", Args: []int64{nw, maxb, p}, Timeout: 10 * time.Minute})
 			}
 		}
+		for f := int64(0); f < 3; f++ {
+			for sh := int64(0); sh < 4; sh++ {
+				js = append(js, &Job{Pkg: pkgRunner, Func: "VerifC19Formats", Args: []int64{f, sh}, Timeout: 10 * time.Minute})
+			}
+		}
 		if tier == "thorough" {
 			pref(3, 3, 1)
 			pref(2, 4, 1)
@@ -124,14 +129,15 @@ func init() {
 		return js
 	}
 	register(&PropSpec{ID: "C19", Jobs: c19jobs,
-		Covers: []string{"C19.several-lines", "C19.more-lines-than-writes", "C19.raw-forwarded"},
+		Covers: []string{"C19.several-lines", "C19.more-lines-than-writes", "C19.raw-forwarded", "C19.format-run-completed-without-crash", "C19.skipped-task-under-format", "C19.before-hook-failed-under-format"},
 		Bounds: map[string]interface{}{
-			"quick":    "prefixed: 2 Write calls of 0..3 bytes, every byte symbolic over all values except ESC (0x1b) and 0xc2; and 3 calls of 0..2 bytes over {a,b,CR,LF}; then WriteFooter. raw: 2 calls of 0..2 arbitrary bytes",
+			"quick":    "(b) a task with optional condition and before hook run through the real TaskRunner under raw / prefixed / cockpit with symbolic outcomes: same commands, same recorded result, no panic. (a) prefixed: 2 Write calls of 0..3 bytes, every byte symbolic over all values except ESC (0x1b) and 0xc2; and 3 calls of 0..2 bytes over {a,b,CR,LF}; then WriteFooter. raw: 2 calls of 0..2 arbitrary bytes",
 			"thorough": "prefixed: 3 calls x 0..3 bytes and 2 calls x 0..4 bytes (any byte except ESC/0xc2), 4 calls x 0..2 bytes over {a,b,CR,LF}; raw: 3 calls x 0..3 bytes",
 		},
-		Outside:     []string{"lines longer than bufio.Writer's 4096-byte buffer", "ANSI escape sequences (ansiRegexp.ReplaceAllLiteral is modelled as the identity, which is exact only for inputs without ESC / U+009B; such bytes are excluded by assumption)", "interleaving of concurrent tasks: each task owns its decorator and every line reaches the sink in one Write call (asserted), so the concurrent claim follows if the sink's Write is atomic - assumed", "the cockpit format and format independence of task results (part (b), see DESIGN)"},
+		Outside:     []string{"lines longer than bufio.Writer's 4096-byte buffer", "ANSI escape sequences (ansiRegexp.ReplaceAllLiteral is modelled as the identity, which is exact only for inputs without ESC / U+009B; such bytes are excluded by assumption)", "interleaving of concurrent tasks: each task owns its decorator and every line reaches the sink in one Write call (asserted), so the concurrent claim follows if the sink's Write is atomic - assumed", "the spinner (briandowns/spinner) and its goroutine: stubbed; its lock ordering against the cockpit mutex is therefore not analysed"},
 		Assumptions: []string{"fmt.Fprintf(dst, \"%s: %s\\r\\n\", name, p) is modelled as one dst.Write of the concatenation", "aurora.Cyan is presentation only (passes the name through)", "real SSA of bufio.ScanLines, bufio.Writer, bytes.IndexByte (intrinsic, branch-free) is executed"},
-		Replay:      map[string]*ReplaySpec{"*": {PkgDir: "pkg/output", File: "C19_replay_test.go", Test: "TestVerifReplayC19"}}})
+		Replay: map[string]*ReplaySpec{"*": {PkgDir: "pkg/output", File: "C19_replay_test.go", Test: "TestVerifReplayC19"},
+			"VerifC19Formats": {PkgDir: "pkg/runner", File: "C19_formats_replay_test.go", Test: "TestVerifReplayC19Formats"}}})
 
 	c07jobs := func(tier string) []*Job {
 		js := c06jobs(tier)
@@ -420,4 +426,29 @@ func init() {
 		Outside:     []string{"more than 2 pipelines / 3 stages; inclusion cycles longer than 2", "watch.NewWatcher (fsnotify, globbing) is stubbed", "the parsers and mapstructure (the definition is constructed directly)"},
 		Assumptions: []string{"map iteration in insertion order (p1 before p2)", "stub runner: tasks succeed"},
 		Replay:      map[string]*ReplaySpec{"*": {PkgDir: "internal/config", File: "C18_replay_test.go", Test: "TestVerifReplayC18"}}})
+
+	register(&PropSpec{ID: "C15",
+		Jobs: func(tier string) []*Job {
+			var js []*Job
+			for sh := int64(0); sh < 10; sh++ {
+				js = append(js, &Job{Pkg: pkgConfig, Func: "VerifC15Import", Args: []int64{sh}, Timeout: 5 * time.Minute})
+			}
+			for sh := int64(0); sh <= 10; sh++ {
+				js = append(js, &Job{Pkg: pkgConfig, Func: "VerifC15Build", Args: []int64{sh}, Timeout: 5 * time.Minute})
+			}
+			for a := int64(0); a < 7; a++ {
+				for b := int64(0); b < 7; b++ {
+					js = append(js, &Job{Pkg: pkgConfig, Func: "VerifC15EnvFile", Args: []int64{a, b}, Timeout: 5 * time.Minute})
+				}
+			}
+			return js
+		},
+		Covers: []string{"C15.import-shape-loaded", "C15.import-shape-rejected-with-an-error", "C15.definition-built", "C15.odd-definition-rejected-with-an-error", "C15.env-file-read", "C15.env-file-rejected-with-an-error"},
+		Bounds: map[string]interface{}{
+			"quick":    "taskctl's OWN loading code on the shapes the parsers can hand it: (i) the value under `import` = null, string, int, bool, list of strings, list with an int / null / nested list, string-keyed map, interface-keyed map; (ii) a definition with a null task / context / stage / watcher entry, a task whose env_file is missing, `dir` on a pipeline-typed stage, a stage naming neither or both of task and pipeline, a task without command, a pipeline without stages, no tasks section; (iii) env files of two lines over {A=1, A, A=1=2, =, empty, =x, # comment}, env file missing. Any reachable panic (nil dereference, failed type assertion, index out of range) is a violation",
+			"thorough": "same",
+		},
+		Outside:     []string{"panics, hangs or errors INSIDE yaml.v2, go-toml, encoding/json, mapstructure, mergo, text/template: not encodable; arbitrary bytes, truncation, anchors, invalid UTF-8 are therefore outside", "the list / show / graph / validate commands on the loaded configuration", "bounded time (the import closure's termination is C17)"},
+		Assumptions: []string{"stubs: file system, Loader.readFile (returns the decoded shape), mergo.Merge, watch.NewWatcher, utils.ReadEnvFile (for (ii)), os.Open and bufio.Scanner (for (iii): the scanner yields the given lines)"},
+		Replay:      map[string]*ReplaySpec{"*": {PkgDir: "internal/config", File: "C15_replay_test.go", Test: "TestVerifReplayC15"}}})
 }
